@@ -61,11 +61,9 @@ func qRef(sp *spec, comm []int, gamma float64) float64 {
 func checkQ(t *vlib.T, b *built, allGamma bool, rot int) {
 	sp := b.sp
 	n := sp.n
-	if sp.totalWeight() == 0 {
-		// Q divides by the total edge weight; undefined (0/0), don't-care.
-		t.Outcome("no-edges-skipped")
-		return
-	}
+	// Degenerate: with zero total weight the formula is 0/0; its IEEE evaluation
+	// (the reference computes exactly the documented double sum) is NaN, and
+	// that is what is required.
 	single := make([]int, n)
 	for i := range single {
 		single[i] = i
@@ -79,7 +77,7 @@ func checkQ(t *vlib.T, b *built, allGamma bool, rot int) {
 			want := qRef(sp, comm, gamma)
 			got := community.Q(b.g, commsOf(b.ids, comm, pi+gi), gamma)
 			t.Count("q_evaluations", 1)
-			if !(math.Abs(got-want) <= qTol) {
+			if !near(got, want, qTol) {
 				t.Failf("Q(%s, partition %v, resolution %v) = %v, defining double sum gives %v (diff %.3g)", sp, comm, gamma, got, want, got-want)
 			}
 			seen[fmt.Sprintf("%.6f", want)] = true
@@ -87,7 +85,7 @@ func checkQ(t *vlib.T, b *built, allGamma bool, rot int) {
 	}
 	for _, gamma := range resolutions {
 		want := qRef(sp, single, gamma)
-		if got := community.Q(b.g, nil, gamma); !(math.Abs(got-want) <= qTol) {
+		if got := community.Q(b.g, nil, gamma); !near(got, want, qTol) {
 			t.Failf("Q(%s, nil, resolution %v) = %v, singleton partition gives %v", sp, gamma, got, want)
 		}
 	}
@@ -96,6 +94,12 @@ func checkQ(t *vlib.T, b *built, allGamma bool, rot int) {
 	}
 	t.Outcome(fmt.Sprintf("n=%d directed=%v weighted=%v self=%v distinctQ>=%d", n, sp.directed, sp.weighted, sp.self, pow2floor(len(seen))))
 	t.Detail(map[string]any{"graph": sp.String(), "ids": b.ids})
+}
+
+// near reports |got-want| <= tol, or both NaN (the IEEE value of a formula
+// that is 0/0 on a degenerate graph).
+func near(got, want, tol float64) bool {
+	return math.Abs(got-want) <= tol || (math.IsNaN(got) && math.IsNaN(want))
 }
 
 func pow2floor(x int) int {
@@ -108,9 +112,9 @@ func pow2floor(x int) int {
 
 func genQ(g *vlib.G, large bool) {
 	spaces := []graphSpace{
-		{n: 1}, {n: 2}, {n: 3}, {n: 4},
+		{n: 0}, {n: 1}, {n: 2}, {n: 3}, {n: 4},
 		{n: 2, weighted: true}, {n: 3, weighted: true}, {n: 4, weighted: true},
-		{n: 2, directed: true}, {n: 3, directed: true},
+		{n: 0, directed: true}, {n: 1, directed: true}, {n: 2, directed: true}, {n: 3, directed: true},
 		{n: 2, directed: true, weighted: true}, {n: 3, directed: true, weighted: true},
 		// every node carries the self weight 1 resp. 2 (A_ii of the formula)
 		{n: 2, weighted: true, self: 1}, {n: 3, weighted: true, self: 2}, {n: 4, weighted: true, self: 1},
@@ -281,11 +285,8 @@ func checkQMultiplex(t *vlib.T, s graphSpace, idxs []int, idKind, order int) {
 					return
 				}
 				for l := 0; l < L; l++ {
-					if m.sp[l].totalWeight() == 0 {
-						continue // 0/0, don't-care
-					}
-					want := qLayerRef(m.sp[l], layerW(ws, l), layerRes(res, l), comm)
-					if !(math.Abs(got[l]-want) <= 1e-11) {
+					want := qLayerRef(m.sp[l], layerW(ws, l), layerRes(res, l), comm) // NaN (0/0) for a layer without weight
+					if !near(got[l], want, 1e-11) {
 						t.Failf("QMultiplex(layers %s, partition %v, weights %v, resolutions %v)[%d] = %v, definition gives %v", m, comm, ws, res, l, got[l], want)
 					}
 				}
@@ -306,10 +307,7 @@ func checkQMultiplex(t *vlib.T, s graphSpace, idxs []int, idKind, order int) {
 				return
 			}
 			for l := 0; l < L; l++ {
-				if m.sp[l].totalWeight() == 0 {
-					continue
-				}
-				if want := qLayerRef(m.sp[l], layerW(ws, l), layerRes(res, l), single); !(math.Abs(got[l]-want) <= 1e-11) {
+				if want := qLayerRef(m.sp[l], layerW(ws, l), layerRes(res, l), single); !near(got[l], want, 1e-11) {
 					t.Failf("QMultiplex(layers %s, nil, weights %v, resolutions %v)[%d] = %v, singleton partition gives %v", m, ws, res, l, got[l], want)
 				}
 			}
